@@ -100,7 +100,7 @@ def enc_pool(run, tools, thorough):
     # many small members at the widest windows, so that every end-marker bit offset is available as
     # a predecessor for every header form
     text = cs[12] + cs[13] + cs[14] + b" The quick brown fox jumps over the lazy dog; pack my box with five dozen liquor jugs."
-    for i in range(90 if thorough else 48):
+    for i in range(140 if thorough else 96):
         c = text[i % 7:(i % 7) + 1 + (i * 5) % 61]
         jobs.append((c, rng.choice([2, 5, 9]), 24, rng.choice(["a", "c", "mc"])))
         jobs.append((c, rng.choice([3, 5, 9]), 30, "l" + rng.choice(["a", "c", "mc"])))
